@@ -606,7 +606,20 @@ class OpsMixin:
             if not ex.implied(p, se == 1):
                 raise Unsupported("sequence slicing with step != 1 at line %s" % getattr(node, "lineno", "?"))
             st, sp = z3.simplify(st), z3.simplify(sp)
+            # contextual simplification: an explicit bound that is known to lie in [0, n] is used as is
+            for which in ("start", "stop"):
+                comp = z3.simplify(SliceDT.sl_start(idx.t) if which == "start" else SliceDT.sl_stop(idx.t))
+                if z3.is_app(comp) and comp.decl().name() == "SomeI":
+                    val = comp.arg(0)
+                    cur = st if which == "start" else sp
+                    if not z3.is_int_value(cur) and ex.implied(p, z3.And(val >= 0, val <= n)):
+                        if which == "start":
+                            st = val
+                        else:
+                            sp = val
             ln = z3.simplify(z3.If(sp > st, sp - st, 0))
+            if ex.implied(p, sp >= st):
+                ln = z3.simplify(sp - st)
             sub = z3.SubSeq(v.t, st, ln)
             if not ex.spec:
                 # pointwise facts about the extracted sub-sequence (st, sp are clamped into [0, n])
